@@ -3781,18 +3781,26 @@ class Parameters:
                 raise ValueError("{} parameter was not found in list of "
                                  "parameters of class {}".format(parameter_name, self_.cls.__name__))
 
+        for parameter_name in parameter_names:
             if self_.self is not None and what == "value":
                 watchers = self_.self._param__private.watchers
                 if parameter_name not in watchers:
                     watchers[parameter_name] = {}
                 if what not in watchers[parameter_name]:
                     watchers[parameter_name][what] = []
-                getattr(watchers[parameter_name][what], action)(watcher)
+                registered = watchers[parameter_name][what]
             else:
                 watchers = self_[parameter_name].watchers
                 if what not in watchers:
                     watchers[what] = []
-                getattr(watchers[what], action)(watcher)
+                registered = watchers[what]
+            if action == 'remove':
+                # the very watcher if it is there (an equal one otherwise)
+                same = [i for i, w in enumerate(registered) if w is watcher]
+                if same:
+                    del registered[same[0]]
+                    continue
+            getattr(registered, action)(watcher)
 
     def watch(
         self_,
